@@ -35,6 +35,12 @@ type Prog struct {
 
 // Load type-checks ./... in repo. whole=true additionally builds SSA bodies for dependencies.
 func Load(repo string, whole bool, extraEnv ...string) (*Prog, error) {
+	return LoadPatterns(repo, []string{"./..."}, 20, whole, extraEnv...)
+}
+
+// LoadPatterns loads the given package patterns (used by thorough tiers for a second
+// configuration such as GOARCH=386 on a sub-tree).
+func LoadPatterns(repo string, patterns []string, minPkgs int, whole bool, extraEnv ...string) (*Prog, error) {
 	mode := packages.NeedName | packages.NeedFiles | packages.NeedCompiledGoFiles | packages.NeedImports |
 		packages.NeedDeps | packages.NeedTypes | packages.NeedTypesSizes | packages.NeedSyntax |
 		packages.NeedTypesInfo | packages.NeedModule
@@ -51,7 +57,7 @@ func Load(repo string, whole bool, extraEnv ...string) (*Prog, error) {
 			packages.NeedTypes | packages.NeedTypesSizes | packages.NeedSyntax | packages.NeedTypesInfo |
 			packages.NeedModule | packages.NeedDeps
 	}
-	pkgs, err := packages.Load(cfg, "./...")
+	pkgs, err := packages.Load(cfg, patterns...)
 	if err != nil {
 		return nil, fmt.Errorf("packages.Load: %w", err)
 	}
@@ -81,8 +87,8 @@ func Load(repo string, whole bool, extraEnv ...string) (*Prog, error) {
 		p.Pkgs = append(p.Pkgs, pk)
 	}
 	sort.Slice(p.Pkgs, func(i, j int) bool { return p.Pkgs[i].PkgPath < p.Pkgs[j].PkgPath })
-	if len(p.Pkgs) < 20 {
-		return nil, fmt.Errorf("only %d module packages loaded (expected >= 20): the build is not what was audited", len(p.Pkgs))
+	if len(p.Pkgs) < minPkgs {
+		return nil, fmt.Errorf("only %d module packages loaded (expected >= %d): the build is not what was audited", len(p.Pkgs), minPkgs)
 	}
 	bmode := ssa.InstantiateGenerics
 	var prog *ssa.Program
